@@ -210,6 +210,8 @@ def View.leaves : View → Bool
   | .forKeyed _ _ => false
   | .scope _ _ _ => false
   | .forRows _ _ _ _ => false
+  | .eb _ => false
+  | .res _ _ => false
 
 theorem View.leaves_core : ∀ (v : View), v.leaves = true → v.core = true
   | .text _, _ => rfl
@@ -328,6 +330,8 @@ theorem rerunIn_leaf : ∀ (v : View) (t : RState) (s0 : St), Good K st v t → 
   | «show» c a b _ _ => intro t s0 _ hl; simp [View.leaves] at hl
   | scope sid d kid _ => intro t s0 _ hl; simp [View.leaves] at hl
   | forRows en sel lists row _ => intro t s0 _ hl; simp [View.leaves] at hl
+  | eb kid _ => intro t s0 _ hl; simp [View.leaves] at hl
+  | res c x => intro t s0 _ hl; simp [View.leaves] at hl
   | forKeyed sel lists => intro t s0 _ hl; simp [View.leaves] at hl
 
 end rerunLeaf
